@@ -2,7 +2,8 @@ import CoapVerif.Model.Parse
 import CoapVerif.Spec.StreamWs
 /-
 M (WebSocket part of C05) — faithful model of the CoAP-over-WebSockets reader AFTER the `fix:` commits
-(long handshake line, 2-byte messages, empty frame, payload kept in ws->rx_data, frames left in rd_header):
+(long handshake line, 2-byte messages, empty frame, payload kept in ws->rx_data, frames left in rd_header,
+header line that starts with its separator):
 
   coap_ws_split_rd_header, coap_ws_rd_http_header_server/_client, coap_ws_rd_http_header   src/coap_ws.c
   coap_ws_read                                                                              src/coap_ws.c
@@ -14,7 +15,8 @@ rd_header[14]; the payload buffer `data` belongs to the CALLER (coap_read_sessio
 a fresh local of every call — only `rxData` (ws->rx_data) survives between calls.
 Oracles (not modelled): SHA-1/base64 of the accept hash (`accept` = the expected header value),
 base64-decoding of the key (`keyOk`), coap_ws_close's draining of the socket after the close frame was sent.
-C strings: the generator never puts a NUL byte into the handshake.
+C strings: `lfIdx` = strchr(http_hdr, LF) stops at a NUL byte, so a line handed to the per-line checks never
+contains one.
 -/
 namespace Coap.M.Ws
 open Coap Coap.M Coap.Spec.Stream.Ws
@@ -45,11 +47,13 @@ def idxOf (c : UInt8) : Bytes → Option Nat
   | [] => none
   | b :: r => if b = c then some 0 else (idxOf c r).map (· + 1)
 
-/-- `coap_ws_split_rd_header`: (index of the separator, name, value) -/
+/-- `coap_ws_split_rd_header`: (index of the separator, name, value); NULL without a separator and (fix: the
+terminator used to be written at `http_hdr[0]`, which made the line look empty) when the line starts with it -/
 def splitHdr (line : Bytes) : Option (Nat × Bytes × Bytes) :=
   match (match idxOf 32 line with | some i => some i | none => idxOf 9 line) with
   | none => none
-  | some i => some (i, line.take i, (line.drop (i + 1)).dropWhile isBlank)
+  | some 0 => none
+  | some (i + 1) => some (i + 1, line.take (i + 1), (line.drop (i + 2)).dropWhile isBlank)
 
 /-- atoi() on a value that starts with digits -/
 def atoi (v : Bytes) : Nat :=
@@ -147,15 +151,13 @@ def lineLoop (mode : Mode) (accept : Bytes) : (fuel : Nat) → St → Lines
       let raw := st.httpHdr.take i
       let line := if raw.getLast? = some 13 then raw.dropLast else raw
       let rem := st.httpHdr.drop (i + 1)
-      -- a non-empty line goes through the per-line checks; they may put a NUL at index 0 (separator first)
+      -- a non-empty line goes through the per-line checks; `http_hdr[0] == 0` is tested again after them, but
+      -- they write a NUL only behind a non-empty header name (`splitHdr`), so `http_hdr[0]` is unchanged
       let r : Option (Seen × Bool) :=
         if line = [] then some (st.seen, true)
         else match lineOk mode accept st.seen line with
           | none => none
-          | some s' =>
-            let sepFirst := (st.seen.first || mode = .client) &&
-              (match splitHdr line with | some (0, _, _) => true | _ => false)
-            some (s', sepFirst)
+          | some s' => some (s', false)
       match r with
       | none => .fail
       | some (s', endLine) =>
